@@ -26,6 +26,13 @@ type Session struct {
 	Concurrency int
 
 	everOff map[memstore.ScannerKey]bool // scanners that were configured with a failing Configure since reset
+
+	// SchedRnd: when set, every Index call runs its scanner goroutines under the
+	// seeded scheduler (Concurrency is the errgroup's limit) and is emitted as a
+	// `pindex` line carrying the schedule; a non-empty fault script then only
+	// means "grant one call in FaultRate with a fault".
+	SchedRnd  *hx.Rand
+	FaultRate int
 }
 
 func (s *Session) op(op, out string, nontrivial bool) {
@@ -61,6 +68,24 @@ func (s *Session) Config(cfg Config) {
 
 // Index performs one index operation and emits it.
 func (s *Session) Index(layers []int, script Script, dead bool) Result {
+	if s.SchedRnd != nil && !dead {
+		rate := 0
+		if len(script) > 0 {
+			rate = s.FaultRate
+		}
+		res, sched := s.W.IndexSched(layers, s.SchedRnd, rate)
+		s.Manifests[LayersString(layers)] = layers
+		s.op(PIndexOp(layers, max(1, s.W.Concurrency), sched), res.Line(), true)
+		if res.Hang {
+			s.Lost = true
+		}
+		s.count(res, Script{}, false)
+		s.R.Count(fmt.Sprintf("sched.steps<=%d", bucket(strings.Count(sched, ",")+1)))
+		if res.SchedFirst != 0 {
+			s.R.Count(fmt.Sprintf("sched.first-fault=%c", res.SchedFirst))
+		}
+		return res
+	}
 	res := s.W.Index(layers, script, dead)
 	s.Manifests[LayersString(layers)] = layers
 	nontrivial := res.Failed || len(script) > 0 || dead || res.Trace != "MGR"
